@@ -292,6 +292,17 @@ def stage2(shapes, s1_meta, s1_model, seed, tier='quick'):
                 for form in ('varr', 'viter'):
                     add('A', '%s.AL%s%d' % (cid, form[1], n), sid, 0, cur, '(%s%s)' % (form, items),
                         kind='assign', base=cid, repl=cid, cur_size=size, repl_size=min_size(t) + n * ssize(t[1]))
+        # ---- a FlexVec whose two-byte offset type cannot count the span of an item: assignment of (BIG, small, MID)
+        #      from an iterator — the offset that would seal BIG is not representable, the assignment must fail and
+        #      leave a valid value (string items only: their emplacer expression stays compact)
+        if t[0] == 'flex' and INTS[t[2]][0] == 2 and t[1][0] == 'str' and INTS[t[1][1]][0] >= 2 and by_shape[sid][0] == cid:
+            os_, ed = min_size(t), min_size(t[1])
+            for k, n in enumerate([65536 - os_ - ed, 65536 - os_ - ed + 2 * a, 65534 - os_ - ed]):
+                big = '(str %s)' % hexs(bytes(0x61 + (x % 26) for x in range(n)))
+                mid = '(str %s)' % hexs(bytes(0x41 + (x % 26) for x in range(1000)))
+                cur = img + garbage(rng, 65536 + 700)
+                add('A', '%s.AB%d' % (cid, k), sid, 0, cur, '(flex %s (str 6869) %s)' % (big, mid), kind='assign', base=cid,
+                    repl=cid, cur_size=size, repl_size=70000)
         # ---- default_in_place
     for sid, t in shapes:
         if not has_default(t):
